@@ -313,6 +313,7 @@ pub fn client_main(
             Req::Put { path, expected, size, declared, shared_body } => {
                 let body = match shared_body {
                     Some(t) => put_body(99, *t as usize, (*size).max(24)),
+                    None if *size == 0 => Vec::new(),
                     None => put_body(me, idx, (*size).max(24)),
                 };
                 let e = resolve(expected, path, &known);
